@@ -1,3 +1,3 @@
-CONSTANTS Scope = "full" Mutant = "none" DepEnumOffered = FALSE
+CONSTANTS Scope = "full" Mutant = "none" DepEnumOffered = FALSE DepMapOffered = FALSE
 SPECIFICATION Spec
 INVARIANT Emit
